@@ -84,6 +84,30 @@ pub fn judge(x: &Vec<u8>, st: &mut Stats) -> Verdict {
         "raw-with-capacity-hints",
         guard(|| Builder::new(x[12], x[13]).reserve_capacity(original.len()).write_payload(h.address_bytes())?.reserve_capacity(3).write_payload(h.tlv_bytes())?.reserve_capacity(0).build()),
     )?;
+    // a builder that was given a length which is then withdrawn; a forwarder that appends the TLV section only when the
+    // parsed header says it has one (is_empty / len of the iterator)
+    check(
+        "raw-after-withdrawn-length",
+        guard(|| Builder::new(x[12], x[13]).set_length(7u16).set_length(None).write_payload(h.address_bytes())?.set_length(9u16).set_length(None).write_payload(h.tlv_bytes())?.build()),
+    )?;
+    check(
+        "raw-tlvs-unless-empty",
+        guard(|| {
+            let t = h.tlvs();
+            let b = Builder::new(x[12], x[13]).write_payload(h.address_bytes())?;
+            let b = if !t.is_empty() { b.write_payload(t)? } else { b };
+            b.build()
+        }),
+    )?;
+    check(
+        "raw-tlvs-if-len-nonzero",
+        guard(|| {
+            let t = h.tlvs();
+            let b = Builder::new(x[12], x[13]).write_payload(h.address_bytes())?;
+            let b = if t.len() > 0 { b.write_payload(t.as_bytes())? } else { b };
+            b.build()
+        }),
+    )?;
     // c. the TLV iterator as a payload
     check("tlvs-iterator", guard(|| Builder::new(x[12], x[13]).write_payload(h.address_bytes())?.write_payload(h.tlvs())?.build()))?;
     // c2. a proxy that validates before it forwards: the iterator has been walked (fully, or by one item) before it
